@@ -38,6 +38,24 @@ FIXED = [
   "ts_mape used numpy.infty (removed in numpy 2): AttributeError instead of +inf when the naive-forecast denominator is 0 and the error is not (replay expected=[0,0], predicted=[0,2]); theorem mape_consts failed"),
  ("C19", "CategoriesToIntegers.transform:skip_errors-stale-indicator", "CategoriesToIntegers.transform skips an unseen category",
   "with skip_errors=True an unseen category fell through to res[i, p] = 1.0 with the previous cell's stale p (or UnboundLocalError on the first cell); theorem unseen_branch_never_writes failed"),
+ ("C02", "PermutationReciprocalTransformer.fit:does-not-return-self", "PermutationReciprocalTransformer.fit returns self",
+  "fit fell off the end and returned None (all_fit_return_self failed on the regenerated table)"),
+ ("C02", "ConstraintKMeans.fit:hyperparam-changed-on-failure:max_iter", "ConstraintKMeans.fit restores max_iter",
+  "max_iter left halved when the initial k-means raised (e.g. NaN in X): the skeleton of fit was rejected by the verified hyper-parameter analysis (write max_iter; call; restore without finally); replay: bad-data nan, max_iter 40 -> 20"),
+ ("C02", "PiecewiseTreeRegressor.fit:hyperparam-changed-on-failure:criterion", "PiecewiseTreeRegressor.fit restores the criterion name",
+  "criterion left as a Criterion object when DecisionTreeRegressor.fit raised; a later fit skipped the leaf regressions (refit differs from a fresh instance); skeleton rejected by the verified analysis"),
+ ("C07", "constraint_kmeans:gain:unbalanced:n_mod_k>=2", "keeps the per-cluster allowance consistent",
+  "strategy 'gain': loopf updated sumi with the wrong sign (and the allowance was not clipped), so cluster sizes left {floor(n/k), ceil(n/k)} when n mod k >= 2 with an unbalanced start (Lean witness n=5, k=3, start 4,1,0 -> 3,1,1; gain_counterexample)"),
+ ("C07", "constraint_kmeans:gain:random-start:fit-raises-AssertionError", "finishes with a pass of plain transfers",
+  "strategy 'gain', kmeans0=False: swapped points were never reconsidered, a cluster could stay over quota and fit raised AssertionError 'The algorithm failed' (n=k=5, ~5% of seeds)"),
+ ("C08", "PiecewiseClassifier.predict:labels-not-in-classes_", "PiecewiseClassifier.predict returns labels of classes_",
+  "predict scattered labels into a float64 buffer and cast to int32: string labels raised, large ints wrapped"),
+ ("C08", "PiecewiseClassifier.fit:shared-random-state-thread-schedule", "gives every bucket task its own seeded generator",
+  "one RandomState shared by all bucket tasks (threads): borrowed examples, hence fitted models, depended on the thread schedule / n_jobs"),
+ ("C04", "CommonRegressorCriterion.pickle:fitted-model-holding-a-criterion-cannot-be-unpickled", "Cython regression criteria can be unpickled",
+  "criteria pickled to an empty state without __reduce__: pickle.loads raised TypeError (__cinit__ takes exactly 2 positional arguments) for a fitted estimator holding a criterion instance"),
+ ("C09", "LinearRegressorCriterion.impurity_improvement:child-weights-ignore-the-split", "LinearRegressorCriterion updates weighted_n_left",
+  "LinearRegressorCriterion inherited the no-op _update_weights: weighted_n_left/right never updated, impurity_improvement ignored the split (witness n=2, w=[3,0], pos=1: 0.0 instead of -1)"),
 ]
 log = subprocess.run(["git", "-C", "/repo", "log", "--format=%h\t%s"], stdout=subprocess.PIPE, text=True).stdout.split("\n")
 def find(sub):
